@@ -9,8 +9,10 @@ ALL = ["C%02d" % i for i in range(1, 20)]
 # property id -> (level category, level text, level_note, technique, design_ref)
 CLAIMS = {}
 
+ADDED = json.load(open(os.path.join(ROOT, "checker", "added_rules.json")))
+
 def claim(pid, text, note, technique, level="other"):
-    CLAIMS[pid] = dict(level=level, text=text, note=note, technique=technique, ref="DESIGN.md §2 " + pid)
+    CLAIMS[pid] = dict(level=level, text=text + ADDED.get(pid, ""), note=note, technique=technique, ref="DESIGN.md §2 " + pid + ", §9, §10")
 
 claim("C09",
       "Decides a structural necessary condition, not the behaviour: no source of nondeterminism inside goverter's own code can reach "
